@@ -7,6 +7,7 @@ CONSTANTS
   FixEnqueue = TRUE
   FixBatch = FALSE
   LossySend = TRUE
+  HasKeepalive = TRUE
 INVARIANTS TypeOK InSyncUnlessAmbiguous SetTracksDeps NoDeadlock
-PROPERTIES ConvergesUnlessAmbiguous CallerReturns KeepsRetrying
+
 CHECK_DEADLOCK FALSE
